@@ -151,7 +151,13 @@ def make_case(ctx, g):
                     if g.chance(0.5):
                         if isinstance(v, QualifiedName):
                             back = rec.bundle.valid_qualified_name(str(v))
+                            own = {n.prefix: n.uri for n in rec.bundle.get_registered_namespaces()}
                             if back is not None and back.uri == v.uri:   # the print form still denotes v here (C03)
+                                rep = str(v)
+                            elif ":" in str(v) and own.get(str(v).split(":", 1)[0], None) is not None and \
+                                    own[str(v).split(":", 1)[0]] + str(v).split(":", 1)[1] == v.uri:
+                                # ... or the container *itself* declares that prefix for that namespace: then 'prefix:local', cut at
+                                # the first colon, is this very name whatever the resolver says (a local part may contain colons)
                                 rep = str(v)
                         elif isinstance(v, datetime.datetime):
                             rep = v.isoformat()
